@@ -12,6 +12,10 @@ CLAIMED = {
          "7 C16", "Lean 4 proof + model/implementation correspondence + spec validity monitor"),
  "C17": ("Lean 4 theorems on the alias resolvers (inbound resolver = reference client table; manual outbound resolver's table = the table a conformant server derives from the wire; null resolver never aliases); all three outbound resolvers and the inbound resolver tied to the model by differential correspondence; a reference server-table replay judges the implementation's resolutions. Engine-level clause (binding recorded before a failed last-chance validation) is exercised by the engine walks once built",
          "7 C17", "Lean 4 proof + model/implementation correspondence + reference server-table replay"),
+ "C13": ("Lean 4 theorems about the logic inside both drivers: the write loop's cursor accounting (transport bytes ++ unsent remainder = engine bytes for every interleaving of services, partial writes and stalls; write completion only for a fully written batch), the websocket read adapter (bytes handed to the engine ++ what the adapter holds = concatenation of message payloads, for every message size, arrival pattern and buffer size) and the result slot (exactly one result). The real tokio and threaded clients, built through the public API, run over a scripted in-memory transport: their transport bytes are compared with the stream the engine model predicts, their write-call logs are replayed by the write-loop model, the real WebsocketStreamWrapper is compared with its model, and stop/close races check that every operation resolves once. PARTIAL: thread/task interleavings are sampled by running the real drivers, not enumerated; tokio's select! and the OS transports are the environment",
+         "7 C13", "Lean 4 proof (write loop, websocket adapter, result slot) + real drivers over scripted transports vs model"),
+ "C20": ("Lean 4 theorems about an executable model of the AWS builder glue: percent-encoding round trip against an independent RFC 3986 query reader, the custom-auth username parses back to exactly the configured authorizer/signature/token pair for all strings, the signature is encoded once whether raw or pre-encoded, client id never empty / kept / generated, every other connect option preserved, 3.1.1 defaults iff neither option set. Model tied to the real builder by differential correspondence through a feature-gated facade; an independent Python query parser judges the implementation's output",
+         "7 C20", "Lean 4 proof + model/implementation correspondence + independent query-string monitor"),
 }
 PENDING = {}
 ids = [json.loads(l)["id"] for l in open(os.path.join(VERIF, "properties.jsonl"))]
